@@ -128,6 +128,7 @@ def main():
     schemas.append(('probe-dict-struct-oneof-recursion', 'package t.k\nstruct A root {\n X B\n}\nstruct B dict(B) {\n F uint64\n O O\n}\noneof O {\n P bool\n Q B\n}\n'))
     schemas.append(('probe-optional-dict-struct-field', 'package t.o\nstruct A root {\n X B optional\n Y uint64\n}\nstruct B dict(B) {\n F uint64\n}\n'))
     schemas.append(('probe-dict-shared-by-string-and-bytes', 'package t.m\nstruct A root {\n X string dict(D)\n Y bytes dict(D)\n}\n'))
+    schemas.append(('probe-dict-struct-self-array', 'package t.s\nstruct R root {\n N Node\n X uint64\n}\nstruct Node dict(Node) {\n V uint64\n Kids []Node\n}\n'))
     schemas.append(('probe-shared-struct-dict', 'package t.h\nstruct A root {\n X B\n Y C\n}\nstruct B dict(B) {\n F uint64\n}\nstruct C dict(B) {\n F uint64\n}\n'))
     known = {k['id']: k for k in vlib.load_known() if k['property'] == PROP and k.get('status') == 'known'}
     nhist = 0
@@ -161,7 +162,16 @@ def main():
             continue
         h = streamlib.Harness(r['key'], sch, r['bin'], r['sjson'])
         cases = []
-        for root in sch['roots']:
+        if name == 'probe-dict-struct-self-array':
+            # a dictionary struct that holds elements of its own dictionary (known finding C10-dict-struct-self-array):
+            # one directed history, no random ones
+            nd = lambda v, kids: [str(v), [[str(k), []] for k in kids]]
+            ops = []
+            for k, n in enumerate([nd(2, [5, 6]), nd(3, [5]), nd(2, [5, 6])]):
+                ops += [{'op': 'set', 'v': [n, str(k + 1)], 'freeze': False}, {'op': 'w'}]
+            ops.append({'op': 'f'})
+            cases.append(dict(id=f'{name}:R:directed', root='R', opts=dict(compression=0, maxframe=0, maxdict=0, flags=0, descriptor=False, userdata={}), ops=ops, transcode=''))
+        for root in (sch['roots'] if name != 'probe-dict-struct-self-array' else []):
             for j in range((2 if tier == 'quick' else 6) * (4 if name == 'oneof-dict-alt' else 1)):
                 opts = streamlib.gen_opts(rng)
                 ops = streamlib.gen_history(sch, root, rng, 2 + rng.below(14))
